@@ -52,8 +52,9 @@ GEN = [   # (generated file, source file in the repo, kernels, declared element 
     ('Gen_performance.v', 'qupulse/utils/performance.py',
      ['_is_monotonic_numba', '_shrink_overlapping_windows_numba', '_time_windows_to_samples_sorted_numba'],
      {'_time_windows_to_samples_sorted_numba': {'begins': 'list Q', 'lengths': 'list Q'}}),
-    ('Gen_util.v', 'qupulse/hardware/util.py', ['_voltage_to_uint16_numba'],
-     {'_voltage_to_uint16_numba': {'voltage': 'list Q'}}),
+    ('Gen_util.v', 'qupulse/hardware/util.py', ['_voltage_to_uint16_numba', 'not_none_indices'],
+     {'_voltage_to_uint16_numba': {'voltage': 'list Q'},
+      'not_none_indices': {'seq': 'list (option Z)', 'indices': 'list (option Z)'}}),
 ]
 
 
